@@ -132,7 +132,7 @@ SELECT = ['any', 'log_softmax', 'norm']
 ACCESS = ['getitem', 'iter', 'tolist', 'item']
 SHAPE = ['transpose', 'permute', 'T', 'flatten', 'unsqueeze', 'expand', 'repeat', 'stack']
 RESHAPE = ['reshape_merge', 'reshape_ones', 'reshape_any', 'view_merge']
-COPIES = ['cast_chain', 'project_own', 'clone', 'detach', 'freshen', 'copy_', 'default_to', 'dim_to_dense', 'to_dense', 'project', 'imul_t', 'itruediv_t']
+COPIES = ['relayout', 'cast_chain', 'project_own', 'clone', 'detach', 'freshen', 'copy_', 'default_to', 'dim_to_dense', 'to_dense', 'project', 'imul_t', 'itruediv_t']
 ALLOPS = BINARY * 3 + BINARY_BOOL + SCALAR + UNARY + SELECT * 2 + ACCESS + SHAPE * 2 + RESHAPE * 2 + COPIES * 2 + ['leaf'] * 4 + ['special_leaf'] * 2
 
 
@@ -914,6 +914,25 @@ class Machine:
             return None
         self.result('clone', x.pt.clone(), x.model.clone(), x.sig)
         return 'clone'
+
+    def op_relayout(self, a):
+        """the same tensor over the same PhysicalAxis objects, stored with its physical axes in another order (the public
+        constructor, as a caller would after physical.permute(...)): equal vaxes, permuted paxes"""
+        x = self.pick(a[0], lambda v: len(v.pt.paxes) >= 2)
+        if x is None:
+            return None
+        n = len(x.pt.paxes)
+        perm = Stream(a[1] * 65536 + a[2], 'relayout').perm(n)
+        if perm == list(range(n)):
+            perm = perm[1:] + perm[:1]
+        ph = x.pt.physical.permute(*perm)
+        if a[3] % 2:
+            ph = ph.clone(memory_format=torch.contiguous_format)
+        pt = self.IX.PatternedTensor(ph, tuple(x.pt.paxes[i] for i in perm), tuple(x.pt.vaxes), x.pt.default)
+        # a permuted view shares storage with x; a contiguous copy does not
+        self.result('relayout', pt, x.model.clone(), x.sig, alias=None if a[3] % 2 else x.alias)
+        self.c.inc('probe.relayout-shares-axes')
+        return 'relayout'
 
     def op_detach(self, a):
         x = self.pick(a[0])
